@@ -26,7 +26,27 @@ MkOpt(s, r) ==
   [cred |-> Bit(s, 0), dropcaps |-> Bit(s, 1), nnp |-> Bit(s, 2), seccomp |-> Bit(s, 3),
    ptrace |-> Bit(s, 4), stop |-> Bit(s, 5), sync |-> Bit(s, 6), ucg |-> Bit(s, 7), pivot |-> Bit(s, 8),
    user |-> Bit(r, 0), pid |-> Bit(r, 1), mnt |-> Bit(r, 2) \/ Bit(s, 8), uts |-> Bit(r, 3), ipc |-> Bit(r, 4),
-   net |-> Bit(r, 5), cgns |-> Bit(r, 6), cgfd |-> Bit(r, 7), amb |-> Bit(r, 8)]
+   net |-> Bit(r, 5), cgns |-> Bit(r, 6), cgfd |-> Bit(r, 7), amb |-> Bit(r, 8),
+   grp |-> "several", gmap |-> "allow"]
+
+\* Credential / gid-mapping dimension x in 0..7 (only meaningful with cred / user):
+\*   grp  = what Credential.Groups asks for: "several" | "one" | "empty" (no supplementary groups) |
+\*          "nosg" (Credential.NoSetGroups: nothing requested, the launcher's groups stay)
+\*   gmap = GIDMappingsEnableSetgroups of the gid map the drivers give with a user namespace:
+\*          "allow" | "deny"
+\* Kernel rule: in a user namespace whose /proc/<pid>/setgroups says "deny", setgroups(2) fails
+\* (EPERM) whatever the list.  The code skips the call exactly for "map given, deny, empty list"
+\* (fork_child_linux.go:123); every other deny combination is refused by the kernel (a C07 recipe), so
+\* MkOptX repairs it to "allow" -- only startable option sets are generated for C04.
+GrpOf(x)  == CASE x % 4 = 0 -> "several" [] x % 4 = 1 -> "one" [] x % 4 = 2 -> "empty" [] OTHER -> "nosg"
+MkOptX(s, r, x) ==
+  LET o == MkOpt(s, r)
+      g == GrpOf(x)
+      m == IF x \div 4 = 1 /\ (~o.cred \/ g \in {"empty", "nosg"}) THEN "deny" ELSE "allow"
+  IN [o EXCEPT !.grp = g, !.gmap = m]
+\* the drivers give a gid map exactly when a user namespace is requested
+GidMapGiven(o) == o.user
+SetgroupsDenied(o) == o.user /\ o.gmap = "deny"
 
 \* Host name / domain name are requested exactly when a UTS namespace is (without one
 \* sethostname would rename the host); a work directory is always requested.
@@ -36,6 +56,7 @@ Sane(o) == o.pivot => o.mnt
 B(b) == IF b THEN "1" ELSE "0"
 SiteSig(o) == "c" \o B(o.cred) \o "d" \o B(o.dropcaps) \o "n" \o B(o.nnp) \o "s" \o B(o.seccomp) \o "p" \o B(o.ptrace)
               \o "t" \o B(o.stop) \o "y" \o B(o.sync) \o "u" \o B(o.ucg)
+              \o (IF o.cred /\ o.grp # "several" THEN "-" \o o.grp ELSE "") \o (IF o.user /\ o.gmap = "deny" THEN "-deny" ELSE "")
 
 -----------------------------------------------------------------------------
 \* securebits (consts_linux.go); numeric values for the strace binding
@@ -72,13 +93,14 @@ StepNames == ToSet(StepOrder)
 PS(o)   == o.ptrace /\ o.seccomp          \* the first sync block (fork_child_linux.go:371)
 Drop(o) == o.cred \/ o.dropcaps
 Early(o) == o.stop \/ (o.seccomp /\ o.ptrace)   \* Start returns before exec (fork_linux.go:107)
-\* setgroups is skipped for "GIDMappings given, setgroups disabled, no groups" and NoSetGroups
-\* (fork_child_linux.go:123); the drivers always list groups and never set NoSetGroups.
+\* setgroups is skipped for "GIDMappings given, setgroups disabled, no groups" and for NoSetGroups
+\* (fork_child_linux.go:123).
 Guard(n, o) ==
   CASE n \in {"close_p0", "getpid", "fds", "setsid", "mounts", "rlimits", "exec", "chdir"} -> TRUE
     [] n = "userns_read"   -> o.user
     [] n = "keepcaps"      -> o.cred \/ o.ucg
-    [] n \in {"setgroups", "setgid", "setuid"} -> o.cred
+    [] n = "setgroups"     -> o.cred /\ ~(GidMapGiven(o) /\ o.gmap = "deny" /\ o.grp = "empty") /\ o.grp # "nosg"
+    [] n \in {"setgid", "setuid"} -> o.cred
     [] n = "ctty"          -> FALSE                     \* CTTY is never requested by the drivers
     [] n = "mount_root"    -> o.mnt
     [] n \in {"pivot_tmpfs", "pivot_chdir", "pivot_root"} -> o.pivot
@@ -195,7 +217,8 @@ Born(o, lsb) ==
 Refused(n, o, x) ==
   CASE n \in {"keepcaps"} -> ~SecbitsAllowed(x.sb, SbKeep, x.eff)
     [] n \in {"dropA_secbits", "dropB_secbits", "dropC_secbits"} -> ~SecbitsAllowed(x.sb, SbDrop, x.eff)
-    [] n \in {"setgroups", "setgid", "setuid"} -> ~x.eff
+    [] n = "setgroups" -> ~x.eff \/ SetgroupsDenied(o)
+    [] n \in {"setgid", "setuid"} -> ~x.eff
     [] n \in {"mount_root", "pivot_tmpfs", "pivot_root"} -> ~x.eff
     [] n \in {"seccompA", "seccompB"} -> ~(x.nnp \/ x.eff)
     [] OTHER -> FALSE
@@ -254,7 +277,7 @@ PostViol(o, x) ==
 \cup (IF x.filt # o.seccomp THEN {"seccomp-iff-given"} ELSE {})
 \cup (IF o.cred /\ x.uid # "req" THEN {"uid"} ELSE {})
 \cup (IF o.cred /\ x.gid # "req" THEN {"gid"} ELSE {})
-\cup (IF o.cred /\ x.groups # "req" THEN {"groups"} ELSE {})
+\cup (IF o.cred /\ o.grp # "nosg" /\ ~SetgroupsDenied(o) /\ x.groups # "req" THEN {"groups"} ELSE {})
 \cup (IF x.sid # "own" THEN {"own-session"} ELSE {})
 \cup (IF x.cwd # "req" THEN {"workdir"} ELSE {})
 \cup (IF o.uts /\ x.host # "req" THEN {"hostname"} ELSE {})
